@@ -151,9 +151,13 @@ def run(chk):
         # conformant ExtendedResponse encodings written here from RFC 4511 4.12 / 4.1.9 (IMPLICIT TAGS): resultCode, matchedDN,
         # diagnosticMessage, then optionally referral [3] (a SEQUENCE OF LDAPURL, for resultCode referral(10)) and
         # responseName [10]; every result code the library knows, with and without the optional parts
-        def tlv(tag, body):
-            assert len(body) < 128
-            return bytes([tag, len(body)]) + body
+        def tlv(tag, body, form=0):
+            # form 0: the definite form DER prescribes; form k > 0: the long form with k length octets (valid BER, what Active
+            # Directory writes with k = 4)
+            if form == 0 and len(body) < 128:
+                return bytes([tag, len(body)]) + body
+            k = form or (1 if len(body) < 256 else 2)
+            return bytes([tag, 0x80 | k]) + len(body).to_bytes(k, 'big') + body
         nl = 0
         for code in LDAPResultCode:
             for refs in ([], [b'ldap://a.example/'], [b'ldap://a.example/', b'ldaps://b.example:636/dc=x']):
@@ -165,13 +169,21 @@ def run(chk):
                         body += tlv(0xa3, b''.join(tlv(0x04, r) for r in refs))
                     if name:
                         body += tlv(0x8a, name)
-                    wire = tlv(0x30, tlv(0x02, b'\x01') + tlv(0x78, body))
-                    r = impl.outcome(lambda: LDAPExtendedResponseStartTLS.parse_exact_size(wire).result_code.name)
-                    extra.append('ldapresp')
-                    if r != 'OK ' + code.name and nl < 3:
-                        nl += 1
-                        chk.violation('a conformant LDAP ExtendedResponse (resultCode %s, %d referral URIs, responseName %s) parses to %s' % (
-                            code.name, len(refs), 'present' if name else 'absent', r), {'wire': wire.hex(), 'ldap_result_code': code.name, 'impl': r}, None, True)
+                    wires = [tlv(0x30, tlv(0x02, b'\x01') + tlv(0x78, body))]
+                    if code.value in (0, 2, 10, 52):
+                        # the outer lengths in the long forms, and a diagnostic message that makes the message longer than 127 octets
+                        wires += [tlv(0x30, tlv(0x02, b'\x01') + tlv(0x78, body, k), k) for k in (1, 2, 4)]
+                        long_body = tlv(0x0a, bytes([code.value])) + tlv(0x04, b'') + tlv(0x04, b'd' * chk.rng.choice([116, 150, 300]))
+                        wires.append(tlv(0x30, tlv(0x02, b'\x01') + tlv(0x78, long_body)))
+                    for wire in wires:
+                        r = impl.outcome(lambda: LDAPExtendedResponseStartTLS.parse_exact_size(wire).result_code.name)
+                        r2 = impl.outcome(lambda: LDAPExtendedResponseStartTLS.parse_immutable(wire + b'\x16\x03\x03')[1])
+                        extra.append('ldapresp')
+                        if (r != 'OK ' + code.name or r2 != 'OK %d' % len(wire)) and nl < 3:
+                            nl += 1
+                            chk.violation('a conformant LDAP ExtendedResponse (resultCode %s, %d referral URIs, responseName %s, %d octets, starts %s) parses to %s; followed by a TLS record '
+                                          'it is consumed as %s' % (code.name, len(refs), 'present' if name else 'absent', len(wire), wire[:6].hex(), r, r2),
+                                          {'wire': wire.hex(), 'ldap_result_code': code.name, 'impl': r}, None, True)
     except ImportError:
         pass
     chk.coverage['evaluations'] = len(lines) + len(extra)
